@@ -218,8 +218,18 @@ def op_guard(rig, which):
     sx.reach("guard-" + which)
 
 
-def op_disconnect(rig):
-    rig.net.disconnect()
+def op_disconnect(rig, dead_receiver=False):
+    if dead_receiver:
+        # the receive thread has died (bus.recv() raised): disconnect() reports that - and still tears down
+        from symx.models import can_model
+        rig.net.notifier = can_model.Notifier(rig.bus, rig.net.listeners)
+        rig.net.notifier.exception = can_model.CanOperationError("receive failed")
+        try:
+            rig.net.disconnect()
+        except can_model.CanOperationError:
+            sx.reach("disconnect-reports")
+    else:
+        rig.net.disconnect()
     rig.ref["pdo"] = None
     rig.ref["pdo2"] = None
     # SYNC / heartbeat / guarding: the statement only requires the PDO tasks to stop; do not constrain them
@@ -250,7 +260,18 @@ def history(producer, k, modifiable, first=None, second=None):
     sx.reach("history-" + producer)
 
 
-def cross(modifiable):
+def scripted(producer, ops, modifiable):
+    """longer histories than the exhaustive ones, with the operations fixed and the values symbolic: stop/start cycles
+    with assignments in between (a value may return to what a previous task was given - the solver picks it)"""
+    rig = Rig(bool(modifiable))
+    fn, _ = PRODUCERS[producer]
+    for op in ops:
+        fn(rig, op)
+        check(rig, "C17/" + producer)
+    sx.reach("scripted-" + producer)
+
+
+def cross(modifiable, dead_receiver=False):
     """all producers running together, then disconnect"""
     rig = Rig(bool(modifiable))
     op_sync(rig, "start_p")
@@ -274,7 +295,7 @@ def cross(modifiable):
         mp.start(sx.fresh_int("px", 1, 1000))
         extra.append(cob)
         sx.prove(len(rig.live(cob)) == 1, "PDO task not started", "C17/cross/extra-start")
-    op_disconnect(rig)
+    op_disconnect(rig, dead_receiver)
     for name, arb in (("pdo", PDO_COB), ("pdo2", 0x207), ("local-rpdo", 0x305), ("remote-tpdo", 0x387)):
         sx.prove(len(rig.live(arb)) == 0, "PDO task survives disconnect", "C17/disconnect/%s" % name)
     sx.reach("cross")
@@ -285,6 +306,13 @@ def jobs(tier):
     q = tier == "quick"
     for mod in (1, 0):
         out.append(dict(func="cross", params=dict(modifiable=mod)))
+        out.append(dict(func="cross", params=dict(modifiable=mod, dead_receiver=True)))
+        for ops in (["start_p", "assign", "stop", "assign", "start", "assign"],
+                    ["start_p", "assign", "assign", "stop", "assign", "start_p", "assign", "update"],
+                    ["assign", "start_p", "stop", "start", "assign", "stop", "assign", "start", "assign"]):
+            out.append(dict(func="scripted", params=dict(producer="pdo", ops=ops, modifiable=mod), weight=500))
+        out.append(dict(func="scripted", params=dict(producer="sync", ops=["start_p", "stop", "start", "start_p", "stop", "start",
+                                                                         "start", "stop"], modifiable=mod)))
         for prod, kq, kt in (("sync", 4, 6), ("pdo", 4, 5), ("guard", 4, 6), ("hb", 3, 3)):
             k = kq if q else kt
             fn, ops = PRODUCERS[prod]
@@ -317,7 +345,7 @@ META = dict(
                     "interleaving calls from several threads"],
     assumptions=["periods are positive integers (seconds) in the harness; heartbeat time t ms gives period t/1000.0"],
     stubs=["can (model bus with live task set)", "struct", "threading", "logging"],
-    required_reach=["sync-start_p", "sync-start", "sync-stop", "pdo-start_p", "pdo-start", "pdo-stop", "pdo-update",
+    required_reach=["disconnect-reports", "scripted-pdo", "scripted-sync", "sync-start_p", "sync-start", "sync-stop", "pdo-start_p", "pdo-start", "pdo-stop", "pdo-update",
                     "pdo-assign", "pdo-assign-bits", "pdo-echo", "hb-write1017", "hb-malformed", "hb-zero", "hb-command", "hb-state", "hb-boot", "guard-start",
                     "guard-stop", "disconnect", "cross"],
     limits=dict(quick=dict(max_decisions=20000), thorough=dict(max_decisions=50000, job_timeout_s=3000)),
